@@ -800,3 +800,7 @@ for _n in range(1, 7):
     B("C10", _n)
 for _n in range(1, 7):
     B("C11", _n)
+for _n in range(1, 7):
+    B("C13", _n)
+for _n in range(1, 7):
+    B("C15", _n)
